@@ -1,6 +1,270 @@
-//! C11 — not built yet.
+//! C11 — re-encoding decoded text is stable; stream decoding equals buffer decoding; lazy rows.
+//!
+//! input: `z <hex zinc text>` | `j <hex json text>` | `look <hex zinc grid> <first-token ends…>`
+//!   z    : if the text is accepted: v = decode(t); t' = encode(v); decode(t') equals v in every component;
+//!          decode through chunked / interrupted readers equals decode from the buffer (value and rows)
+//!          correspondence: `C11 dec H(t)`, `C11 enc V`, `C11 rows H(t)` (incl. consumed byte counts)
+//!   j    : the Hayson analogue of the fixed point (serde_json to_string / from_str)
+//!   look : a grid text whose rows were laid out by the harness; `ends[i]` = offset just past the first
+//!          token of the line after row i; the iterator must hand out row i having pulled at most
+//!          `ends[i] + LOOKAHEAD` bytes from the reader
+
+use crate::c03::{decode_bytes, rows_reply_counted, FaultyReader};
 use crate::ctx::{CaseOut, Ctx};
+use crate::gen::{self, Cfg};
+use crate::same;
+use crate::spell;
+use crate::vx;
+use libhaystack::encoding::zinc::decode::parser::Parser;
+use libhaystack::encoding::zinc::decode::{from_str, parse_grid_iterator};
+use libhaystack::encoding::zinc::encode::to_zinc_string;
+use libhaystack::val::*;
 
-pub fn exec(_label: &str, _input: &str, _out: &mut CaseOut) {}
+/// bytes the scanner may hold beyond the end of the first token after a row: its current byte plus
+/// the one/two-byte peeks of the scalar readers (`@id "`, `Z AB`, number/date dispatch)
+pub const LOOKAHEAD: usize = 3;
 
-pub fn generate(_ctx: &mut Ctx) {}
+fn rows_via(bytes: &[u8], chunk: usize, intr: usize) -> Option<Vec<String>> {
+    let mut rd = FaultyReader { data: bytes, pos: 0, chunk, intr, fail_at: None, calls: 0, transient: false, failed_once: false };
+    let mut p = Parser::make(&mut rd).ok()?;
+    let it = parse_grid_iterator(&mut p).ok()?;
+    let mut out = Vec::new();
+    for (n, item) in it.enumerate() {
+        if n > bytes.len() + 3 {
+            out.push("unbounded".into());
+            break;
+        }
+        match item {
+            Ok(r) => out.push(vx::show(&Value::Dict(r))),
+            Err(_) => {
+                out.push("e".into());
+                break;
+            }
+        }
+    }
+    Some(out)
+}
+
+pub fn exec(_label: &str, input: &str, out: &mut CaseOut) {
+    let mut parts = input.split(' ');
+    let mode = parts.next().unwrap_or("");
+    let bytes = match parts.next().and_then(vx::unhex) {
+        Some(b) => b,
+        None => {
+            out.fail("harness", "unparsable C11 input".into());
+            return;
+        }
+    };
+    match mode {
+        "z" => {
+            let text = match String::from_utf8(bytes.clone()) {
+                Ok(t) => t,
+                Err(_) => return,
+            };
+            let v = match from_str(&text) {
+                Ok(v) => v,
+                Err(_) => {
+                    out.stat("z:rejected");
+                    out.req(format!("C11 dec {}", vx::hex(&bytes)), "err".into());
+                    return;
+                }
+            };
+            out.nontrivial = true;
+            out.stat("z:accepted");
+            out.req(format!("C11 dec {}", vx::hex(&bytes)), format!("ok {}", vx::show(&v)));
+            // re-encode
+            match to_zinc_string(&v) {
+                Err(e) => out.fail("reencode_err", format!("decoded value cannot be encoded: {e}")),
+                Ok(t2) => {
+                    out.req(format!("C11 enc {}", vx::show(&v)), format!("ok {}", vx::h(&t2)));
+                    match from_str(&t2) {
+                        Err(e) => out.fail("reencode_unreadable", format!("decode(encode(decode(t))) fails: {e}   t={text:?} t'={t2:?}")),
+                        Ok(v2) => {
+                            if let Some(d) = same::diff(&v, &v2, "v") {
+                                out.fail("reencode_unstable", format!("{d}   t={text:?} t'={t2:?}"));
+                            }
+                        }
+                    }
+                }
+            }
+            // stream = buffer
+            let base = decode_bytes(&bytes).map(|v| vx::show(&v));
+            let base_rows = rows_via(&bytes, usize::MAX, 0);
+            for (chunk, intr) in [(1usize, 0usize), (2, 3), (3, 2), (7, 0), (64, 5)] {
+                let mut rd = FaultyReader { data: &bytes, pos: 0, chunk, intr, fail_at: None, calls: 0, transient: false, failed_once: false };
+                let got = match Parser::make(&mut rd) {
+                    Ok(mut p) => p.parse_value().map(|v| vx::show(&v)).map_err(|_| ()),
+                    Err(_) => Err(()),
+                };
+                if got != base {
+                    out.fail("chunk_variance", format!("chunk={chunk} intr={intr}: value differs from the buffer decode   t={text:?}"));
+                }
+                if text.starts_with("ver") && rows_via(&bytes, chunk, intr) != base_rows {
+                    out.fail("chunk_variance_rows", format!("chunk={chunk} intr={intr}: rows differ from the buffer decode   t={text:?}"));
+                }
+            }
+            if text.starts_with("ver") {
+                out.req(format!("C11 rows {}", vx::hex(&bytes)), rows_reply_counted(&bytes));
+            }
+        }
+        "j" => {
+            let text = match String::from_utf8(bytes) {
+                Ok(t) => t,
+                Err(_) => return,
+            };
+            let v: Value = match serde_json::from_str(&text) {
+                Ok(v) => v,
+                Err(_) => {
+                    out.stat("j:rejected");
+                    return;
+                }
+            };
+            out.nontrivial = true;
+            out.stat("j:accepted");
+            match serde_json::to_string(&v) {
+                Err(e) => out.fail("j_reencode_err", format!("decoded value cannot be encoded: {e}")),
+                Ok(t2) => match serde_json::from_str::<Value>(&t2) {
+                    Err(e) => out.fail("j_reencode_unreadable", format!("{e}   t={text:?} t'={t2:?}")),
+                    Ok(v2) => {
+                        if let Some(d) = same::diff(&v, &v2, "v") {
+                            out.fail("j_reencode_unstable", format!("{d}   t={text:?} t'={t2:?}"));
+                        }
+                    }
+                },
+            }
+        }
+        "look" => {
+            let ends: Vec<usize> = parts.filter_map(|s| s.parse().ok()).collect();
+            out.nontrivial = true;
+            let reply = rows_reply_counted(&bytes);
+            out.req(format!("C11 rows {}", vx::hex(&bytes)), reply.clone());
+            // consumed counts are the tokens following each `r`
+            let toks: Vec<&str> = reply.split(' ').collect();
+            let mut consumed: Vec<usize> = Vec::new();
+            let mut i = 0;
+            while i < toks.len() {
+                if toks[i] == "row" {
+                    if let Some(c) = toks.get(i + 1).and_then(|s| s.parse().ok()) {
+                        consumed.push(c);
+                    }
+                }
+                i += 1;
+            }
+            if consumed.len() != ends.len() {
+                out.fail("look_rows", format!("{} rows handed out, {} laid out", consumed.len(), ends.len()));
+                return;
+            }
+            for (k, (c, e)) in consumed.iter().zip(ends.iter()).enumerate() {
+                out.stat("look:row");
+                if *c > (*e + LOOKAHEAD).min(bytes.len()) {
+                    out.fail("lookahead", format!("row {k} was handed out after {c} bytes; the first token after it ends at {e}"));
+                }
+            }
+        }
+        _ => out.fail("harness", format!("unknown mode {mode}")),
+    }
+}
+
+/// lay out a grid text row by row and remember where the first token after each row ends
+fn layout_grid(rng: &mut crate::rng::Rng, nrows: usize) -> (String, Vec<usize>) {
+    let ncols = 1 + rng.below(4) as usize;
+    let names: Vec<String> = (0..ncols).map(|i| format!("c{i}")).collect();
+    let mut text = format!("ver:\"3.0\"\n{}\n", names.join(","));
+    let cfg = Cfg::wf(1);
+    let mut first_lens: Vec<usize> = Vec::new();
+    let mut starts: Vec<usize> = Vec::new();
+    for _ in 0..nrows {
+        starts.push(text.len());
+        let mut cells: Vec<String> = Vec::new();
+        for c in 0..ncols {
+            let v = gen::scalar(rng, &cfg);
+            let t = if c > 0 && rng.chance(1, 6) { String::new() } else { to_zinc_string(&v).unwrap_or_else(|_| "N".into()) };
+            cells.push(t);
+        }
+        // first lexer token of the line
+        let first = if cells[0].is_empty() { 1 } else { cells[0].len() };
+        first_lens.push(first);
+        text.push_str(&cells.join(","));
+        text.push('\n');
+    }
+    let end_line_start = text.len();
+    text.push('\n');
+    // ends[i] = end of the first token of the line after row i
+    let mut ends = Vec::new();
+    for i in 0..nrows {
+        if i + 1 < nrows {
+            ends.push(starts[i + 1] + first_lens[i + 1]);
+        } else {
+            ends.push(end_line_start + 1);
+        }
+    }
+    (text, ends)
+}
+
+pub fn generate(ctx: &mut Ctx) {
+    // accepted texts: spelled from values with random legal spellings
+    let n = ctx.n(2500, 120_000);
+    for i in 0..n {
+        let mut rng = ctx.rng.fork();
+        let cfg = Cfg::wf(if i % 10 == 0 { 5 } else { 3 });
+        let v = if i % 3 == 0 { Value::Grid(gen::grid(&mut rng, &cfg, 0)) } else { gen::value(&mut rng, &cfg) };
+        let t = spell::spell(&mut rng, &v);
+        ctx.case("z:spelled", &format!("z {}", vx::h(&t)));
+    }
+    // the library's own output and its mutants (accepted ones count)
+    let docs = crate::c03::sample_docs(ctx, ctx.n(40, 300));
+    for d in &docs {
+        ctx.case("z:doc", &format!("z {}", vx::hex(d)));
+    }
+    let n = ctx.n(2500, 100_000);
+    for _ in 0..n {
+        let mut rng = ctx.rng.fork();
+        let d = rng.pick(&docs).clone();
+        let m = crate::c03::mutate_bytes(&mut rng, &d);
+        ctx.case("z:mutant", &format!("z {}", vx::hex(&m)));
+    }
+    // raw control characters inside a Uri are accepted by the reader: they must survive re-encoding
+    for t in ["`a\tb`", "`\u{1}`", "[`a\u{1f}b`,\"x\"]", "ver:\"3.0\"\na\n`x\ty`\n"] {
+        ctx.case("z:ctrl", &format!("z {}", vx::h(t)));
+    }
+    // corpus files shipped with the repository
+    for f in ["/repo/benches/zinc/points.zinc", "/repo/tests/defs/defs.zinc"] {
+        if let Ok(data) = std::fs::read(f) {
+            let lim = if ctx.quick() { 60_000 } else { data.len() };
+            // cut at a line end so that the text stays a grid
+            let mut cut = lim.min(data.len());
+            while cut > 0 && cut < data.len() && data[cut - 1] != b'\n' {
+                cut -= 1;
+            }
+            if ctx.quick() {
+                // the Lean driver walks lists: keep the correspondence part small
+                let mut small = 4000.min(data.len());
+                while small > 0 && data[small - 1] != b'\n' {
+                    small -= 1;
+                }
+                ctx.case("z:corpus", &format!("z {}", vx::hex(&data[..small])));
+            } else {
+                ctx.case("z:corpus", &format!("z {}", vx::hex(&data[..cut])));
+            }
+        }
+    }
+    // Hayson
+    let n = ctx.n(1500, 60_000);
+    for _ in 0..n {
+        let mut rng = ctx.rng.fork();
+        let v = gen::value(&mut rng, &Cfg::any(3));
+        if let Ok(j) = serde_json::to_string(&v) {
+            let m = if rng.chance(2, 3) { j.into_bytes() } else { crate::c03::mutate_bytes(&mut rng, j.as_bytes()) };
+            ctx.case("j", &format!("j {}", vx::hex(&m)));
+        }
+    }
+    // look-ahead of the lazy row iterator
+    let n = ctx.n(300, 6000);
+    for i in 0..n {
+        let mut rng = ctx.rng.fork();
+        let nrows = if i % 50 == 0 { 400 } else { 1 + rng.below(12) as usize };
+        let (text, ends) = layout_grid(&mut rng, nrows);
+        let e: Vec<String> = ends.iter().map(|x| x.to_string()).collect();
+        ctx.case("look", &format!("look {} {}", vx::h(&text), e.join(" ")));
+    }
+}
